@@ -68,7 +68,7 @@ MANIFEST = {
 KINDS = ['int', 'float', 'str', 'date', 'bool', 'ts']
 #: query kind -> entry kinds a client may send (first = no cast needed)
 FEEDS = {
-    'int': ['int', 'str', 'float'],
+    'int': ['int', 'str', 'float', 'bool'],
     'float': ['float', 'str', 'int'],
     'str': ['str', 'int', 'float'],
     'date': ['date', 'str'],
@@ -201,6 +201,8 @@ def gen_raw(rng, qkind, ekind, colid):
     """A value the client sends in a column declared ``ekind`` that casts loss-lessly to ``qkind``; values carry the
     column identity so that a misrouted column cannot go unnoticed."""
     base = (colid + 1) * 1000 + rng.randint(0, 999)
+    if qkind == 'int' and ekind == 'bool':  # JSON true / false sent for a field declared Integer
+        return rng.random() < 0.5
     if qkind == 'int':
         number = base * rng.choice([1, -1])
         return number if ekind == 'int' else str(number) if ekind == 'str' else float(number)
